@@ -147,9 +147,9 @@ func init() {
 	add(&simkit.Check{
 		Property: "C14",
 		Parts: []simkit.Part{
-			{Name: "clisim-c14", Fn: clisim.C14, ProcessLevel: true, NeedsCLI: true, Runs: map[string]int{"quick": 800, "thorough": 24000}},
+			{Name: "clisim-c14", Fn: clisim.C14, ProcessLevel: true, NeedsCLI: true, Runs: map[string]int{"quick": 960, "thorough": 28800}},
 		},
-		Rule:           "one run = (dev-url command x initial dev state) stratified over the run index (8 commands x 5 states: no file, empty file, user tables with rows, leftovers of a replay killed before restore, view only) + generated directory / SQL schema with real DDL + drawn fault (none, a failing statement at a drawn position, SIGKILL at a drawn replay point) + the follow-up command after a crash; distinct = distinct trace hash",
+		Rule:           "one run = (dev-url command x initial dev state) stratified over the run index (8 commands x 6 states: no file, empty file, user tables with rows, leftovers of a replay killed before restore, view only, virtual tables only) + generated directory / SQL schema with real DDL + drawn fault (none, a failing statement at a drawn position, SIGKILL at a drawn replay point) + the follow-up command after a crash; distinct = distinct trace hash",
 		RequiredProbes: c14probes,
 		RequiredFaults: []string{"crash-in-earlier-replay", "crash-in-replay", "statement-failure-in-replay", "non-empty-dev"},
 		Real:           []string{"the whole CLI binary (migrate diff/validate/lint, schema apply/diff/inspect with --dev-url)", "SQLite driver Snapshot/restore, Executor.Replay, DevDriver normalisation, lint DevLoader", "SQLite engine and files"},
@@ -174,7 +174,7 @@ func init() {
 		Property:       "C05",
 		Parts:          []simkit.Part{{Name: "schemasim-c05", Fn: schemasim.Walk("C05"), Runs: map[string]int{"quick": 3000, "thorough": 120000}}},
 		Rule:           walkRule + "; oracle: row count and the multiset of rows projected on the columns that keep name and declared type, per table, across every successful apply; whole-database identity across every failed apply in a transaction",
-		RequiredProbes: []string{"successful-apply", "populated-table-checked/alter", "populated-table-checked/rebuild", "failed-apply-rolled-back", "row-inserted", "child-row-references-parent-row"},
+		RequiredProbes: []string{"successful-apply", "populated-table-checked/alter", "populated-table-checked/rebuild", "failed-apply-rolled-back", "row-inserted", "child-row-references-parent-row", "generated-column-became-regular"},
 		RequiredFaults: []string{"statement-error", "connection-abandoned"},
 		Real:           walkReal, Stub: walkStub, Assumptions: append([]string{"a nullable column that becomes NOT NULL cannot keep its NULLs: such a column is compared only if it held none", "rows are matched as multisets (every generated cell value is unique), not by rowid"}, walkAssume...),
 		SimTimeUnit: "reconciliation steps",
@@ -201,7 +201,7 @@ func init() {
 		Property:       "C18",
 		Parts:          []simkit.Part{{Name: "clisim-c18", Fn: clisim.C18, ProcessLevel: true, NeedsCLI: true, Runs: map[string]int{"quick": 500, "thorough": 15000}}},
 		Rule:           "one run = a directory evolved file by file (2-6 files): each file is either derived by `migrate diff` from one schema edit (so SQLite's rebuild procedure appears when it would for a user) or hand-written from 1-3 operations (CREATE TABLE, ADD COLUMN, CREATE INDEX, DROP TABLE, ALTER TABLE DROP COLUMN of a stored or virtual column, rebuild that omits a column, additive rebuild, create-and-drop of a temporary table or column, drop of an existing column / table followed by an add / create of the same name); then `migrate lint --latest N` for a drawn N; the reference model tracks which tables and non-virtual columns existed before each file; distinct = distinct trace hash",
-		RequiredProbes: []string{"file-derived-by-migrate-diff", "diff-generated-rebuild", "temporary-table-created-and-dropped", "hand-written-rebuild-omitting-column", "additive-rebuild", "virtual-column-dropped", "additive-file-in-window", "column-dropped-and-re-added", "table-dropped-and-re-created", "temporary-column-added-and-dropped"},
+		RequiredProbes: []string{"file-derived-by-migrate-diff", "diff-generated-rebuild", "temporary-table-created-and-dropped", "hand-written-rebuild-omitting-column", "additive-rebuild", "virtual-column-dropped", "additive-file-in-window", "column-dropped-and-re-added", "table-dropped-and-re-created", "temporary-column-added-and-dropped", "rebuild-without-pragma-frame", "diff-with-two-edits"},
 		RequiredFaults: []string{"destructive/DS102", "destructive/DS103"},
 		Real:           []string{"the whole CLI binary (migrate lint with DevLoader, sqlcheck destructive analyzer, sqlitecheck, migrate diff)", "SQLite engine (dev database file)"},
 		Stub:           []string{"none"},
